@@ -155,6 +155,7 @@ pub fn single_normal(p: &Path) -> bool {
 pub struct GlyphR {
     pub name: String,
     pub objlibs: bool,
+    pub uid: bool, // a plist Uid in the glyph's lib: the glyph cannot be encoded
     pub width: u32,
 }
 #[derive(Clone, Debug)]
@@ -245,7 +246,7 @@ impl Recipe {
             for _ in 0..ng {
                 let i = r.below(gn.len() as u64) as usize;
                 let n = gn.remove(i);
-                l.glyphs.push(GlyphR { name: n.into(), objlibs: false, width: r.below(1000) as u32 });
+                l.glyphs.push(GlyphR { name: n.into(), objlibs: false, uid: false, width: r.below(1000) as u32 });
             }
         }
         if r.chance(1, 2) {
@@ -409,6 +410,11 @@ pub fn make_glyph(g: &GlyphR) -> Glyph {
     if g.objlibs {
         gl.lib.insert("public.objectLibs".into(), plist::Value::Dictionary(Default::default()));
     }
+    if g.uid {
+        let mut inner = plist::Dictionary::new();
+        inner.insert("u".into(), plist::Value::Uid(plist::Uid::new(7)));
+        gl.lib.insert("com.example.nested".into(), plist::Value::Array(vec![plist::Value::Dictionary(inner)]));
+    }
     gl
 }
 pub fn apply_bad_info(f: &mut Font, kind: u8) {
@@ -515,6 +521,15 @@ fn gstore<'a>(keys: impl Iterator<Item = &'a PathBuf>, root: &[String], cells: &
     format!("(Store {} [{}])", gpath_of(root), items.join(";"))
 }
 
+pub fn has_uid(v: &plist::Value) -> bool {
+    match v {
+        plist::Value::Uid(_) => true,
+        plist::Value::Array(a) => a.iter().any(has_uid),
+        plist::Value::Dictionary(d) => d.values().any(has_uid),
+        _ => false,
+    }
+}
+
 /// the `font_abs` term of a real font (see coq/Model/Save.v)
 pub fn abstract_font(a: &AbsInput) -> String {
     let f = a.font;
@@ -535,6 +550,9 @@ pub fn abstract_font(a: &AbsInput) -> String {
             };
             let body = if g.lib.contains_key("public.objectLibs") {
                 "None".to_string()
+            } else if has_uid(&plist::Value::Dictionary(g.lib.clone())) {
+                glifs.push(format!("GlifEnc {}", grel(gp, a.sandbox)));
+                continue;
             } else {
                 let mut base = a.ref_target.to_vec();
                 base = lexical(&base, l.path(), a.sandbox);
@@ -617,6 +635,7 @@ pub fn obs_of(r: &Result<Result<(), FontWriteError>, String>) -> (String, String
                     "LGlyphObjLibs"
                 }
                 LayerWriteError::Glyph { source: GlifWriteError::Io(_), .. } => "LGlyphIo",
+                LayerWriteError::Glyph { source: GlifWriteError::Plist(_), .. } => "LGlyphEncode",
                 _ => return ("ObsOther".into(), "Layer(other)".into()),
             };
             format!("(LayerErr {} {})", gq(name), le)
